@@ -106,6 +106,47 @@ func (rn *runner) genStep() {
 	// bias towards "somebody joins while the saver holds nothing of a denom that already has a
 	// multiplier": a sole holder claims (with 10^k shares that drains the saver exactly), and a
 	// non-holder delegates to a validator in that state
+	// bias towards generations: a validator with rewards history is wound down (every holder
+	// undelegates the value of all their shares; the last one takes the whole delegation, which
+	// brings the supply to exactly 0), and the next generation is opened by another account
+	for vv := range d.Cells {
+		c := d.Cells[vv]
+		hasM := false
+		for dn := range denomNames {
+			hasM = hasM || c.M[dn].C.Sign() > 0
+		}
+		if !hasM || c.Ent >= rn.maxE-1 {
+			continue
+		}
+		if c.T.Sign() == 0 {
+			if r.Chance(1, 2) {
+				j := r.Intn(4)
+				if j == rn.left[vv] {
+					j = (j + 1 + r.Intn(3)) % 4
+				}
+				rn.do(op{Kind: kDelegate, U: j, V: vv, Amt: rn.amount()}, "gen:open-generation")
+				return
+			}
+			continue
+		}
+		var hs []int
+		for i := 0; i < nUsers; i++ {
+			if c.Sh[i].Sign() > 0 {
+				hs = append(hs, i)
+			}
+		}
+		if len(hs) > 0 && len(hs) <= 2 && c.B != nil && r.Chance(1, 6) {
+			u0 := hs[r.Intn(len(hs))]
+			amt := value(c, u0)
+			if len(hs) == 1 {
+				amt = new(big.Int).Set(c.B) // the last holder takes everything
+			}
+			if amt.Sign() > 0 {
+				rn.do(op{Kind: kUndelegate, U: u0, V: vv, Amt: amt, Rcp: -3}, "gen:wind-down")
+				return
+			}
+		}
+	}
 	for vv := range d.Cells {
 		c := d.Cells[vv]
 		holders, last := 0, -1
